@@ -10,6 +10,7 @@ import (
 	"strconv"
 	"strings"
 	"sync"
+	"sync/atomic"
 	"syscall"
 	"time"
 
@@ -76,10 +77,16 @@ func runHTTPHistory(h History) HistObs {
 	defer s.close()
 	var c *mcp.Client
 	var err error
+	var plan atomic.Pointer[clientPlan]
+	opts := []mcp.ClientOption{mcp.WithClientLogger(kit.Quiet{})}
+	if historyHasClientSideFault(h) {
+		// client-side faults use the library's documented per-request hook; other histories run without it
+		opts = append(opts, mcp.WithHTTPBeforeRequest(beforeRequestHook(&plan)))
+	}
 	if legacy {
-		c, err = mcp.NewSSEClient(s.url(), kit.ClientInfo, mcp.WithClientLogger(kit.Quiet{}))
+		c, err = mcp.NewSSEClient(s.url(), kit.ClientInfo, opts...)
 	} else {
-		c, err = mcp.NewClient(s.url(), kit.ClientInfo, mcp.WithClientLogger(kit.Quiet{}), mcp.WithClientGetSSEEnabled(h.GetSSE))
+		c, err = mcp.NewClient(s.url(), kit.ClientInfo, append(opts, mcp.WithClientGetSSEEnabled(h.GetSSE))...)
 	}
 	if err != nil {
 		obs.Problem = "client constructor: " + err.Error()
@@ -100,12 +107,23 @@ func runHTTPHistory(h History) HistObs {
 				mode = mHealthy
 				o.Mode = mode
 			}
-			s.setMode(mode, st.Var)
 			d := callWatchdog
 			if legacy && mode == mMalA {
 				d = hangBound // the legacy client drops an unparsable event; only cancellation ends the call
 			}
 			ctx, cancel := context.WithTimeout(context.Background(), d)
+			var cp *clientPlan
+			if mode == mFault {
+				s.setMode(mHealthy, st.Var)
+				if clientSideFault(st.Fault) {
+					cp = &clientPlan{legacy: legacy, at: st.At, kind: st.Fault, cancel: cancel}
+					plan.Store(cp)
+				} else {
+					s.setFault(st.At, st.Fault, cancel)
+				}
+			} else {
+				s.setMode(mode, st.Var)
+			}
 			_, err := c.Initialize(ctx, &mcp.InitializeRequest{})
 			cancel()
 			o.OK, o.Err = err == nil, errText(err)
@@ -121,6 +139,20 @@ func runHTTPHistory(h History) HistObs {
 				}
 				if s.getCount() == g0 {
 					o.Note = "listening-stream GET not seen within 10s"
+				}
+			}
+			if mode == mFault && st.At == atGet && err == nil && cp == nil {
+				// the GET is counted before the fault is applied to it: let the server finish (resource wait only)
+				for dl := time.Now().Add(2 * time.Second); s.faultFired() == 0 && s.getCount() != g0 && time.Now().Before(dl); {
+					time.Sleep(200 * time.Microsecond)
+				}
+			}
+			if mode == mFault {
+				// Fired = how often the fault was actually applied (0: the handshake never reached that step)
+				plan.Store(nil)
+				o.Fired = s.clearFault()
+				if cp != nil {
+					o.Fired = int(cp.fired.Load())
 				}
 			}
 			s.setMode(mHealthy, 0)
@@ -326,7 +358,11 @@ func runStdioHistory(h History, dir string) HistObs {
 		l0 := len(recLines(recPath))
 		switch st.Kind {
 		case "init":
-			setMode(st.Mode, st.Var)
+			if st.Mode == mFault {
+				setMode(stdioFaultMode(st.At, st.Fault), st.Var)
+			} else {
+				setMode(st.Mode, st.Var)
+			}
 			d := callWatchdog
 			if st.Mode == mMalA || decoderStuck {
 				d = hangBound
@@ -448,6 +484,11 @@ func runStdioHistory(h History, dir string) HistObs {
 				}
 			case l == "exit-down":
 				o.Wire = append(o.Wire, "CHILD-EXITED")
+			case l == "exit-fault" || l == "stdout-closed" || l == "stdin-closed":
+				o.Wire = append(o.Wire, "CHILD-FAULT "+l)
+				if st.Kind == "init" && st.Mode == mFault {
+					o.Fired++
+				}
 			}
 		}
 		sp := len(newPIDs)
